@@ -57,6 +57,7 @@ def op? (s : String) : Option Op :=
   | ["rm", r, o] => do some (.rm (← nat? r) (← old? o))
   | ["symref", r, t] => do some (.symref (← nat? r) (← nat? t))
   | ["pack"] => some .pack
+  | ["unpack", r] => do some (.unpack (← nat? r))
   | ["list"] => some .list
   | ["keys"] => some .keys
   | ["commit", r, c] => do some (.commit (← nat? r) (← nat? c))
